@@ -185,6 +185,14 @@ func checkC13(c *Ctx) {
 	ruleTakeListAtomically(c, "C13.g")
 	c.rule("C13.h", "every mutex taken in a function is released on every exit (or held at all exits: transfer wrapper)", 30)
 	ruleBalancedLocks(c, "C13.h", "imapclient")
+	c.rule("C13.i", "no blocking channel operation while Client.mutex is held", 1)
+	ruleNoBlockingUnderClientMutex(c, "C13.i", la)
+	c.rule("C13.j", "a failed command flush closes the client (a command submitted while the connection goes down is completed)", 1)
+	ruleFlushCloses(c, "C13.j", p.Func("imapclient", "commandEncoder", "flush"), p.Func("imapclient", "Client", "closeWithError"))
+	c.rule("C13.k", "a continuation request is registered before the bytes that provoke it are flushed", 3)
+	ruleRegisterBeforeFlush(c, "C13.k")
+	c.rule("C13.l", "a reference loaded from a guarded map/slice field of Client is used only while the mutex is held", 3)
+	ruleGuardedRefEscapes(c, "C13.l", la, guards, "imapclient")
 	rulePublication(c, "C13.b", la, guards, clientGuard)
 	ruleCommandEncoderPairing(c, "C13.c")
 	ruleCompletionPairing(c, "C13.d", la, clientGuard)
@@ -634,8 +642,10 @@ func checkRemovalCompletes(c *Ctx, rule string, fn *ssa.Function, removal *ssa.C
 			c.ok(rule, key, ret.Pos(), "no command was removed on this path")
 			continue
 		}
-		ev := ret.Results[len(ret.Results)-1]
-		cls := classifyErr(ev, fs, nil, map[ssa.Value]bool{})
+		cls := errNil // a function without an error result: every return is a normal one
+		if len(ret.Results) > 0 && isErrorType(ret.Results[len(ret.Results)-1].Type()) {
+			cls = classifyErr(ret.Results[len(ret.Results)-1], fs, nil, map[ssa.Value]bool{})
+		}
 		switch {
 		case cls == errNil || cls == errUnknown && false:
 			c.check(cnt == 2, rule, key, ret.Pos(), "completed exactly once before a nil return",
@@ -892,4 +902,42 @@ func helperReturnsFreshSnapshot(cal *ssa.Function) bool {
 		}
 	}
 	return ok && n > 0
+}
+
+// ruleNoBlockingUnderClientMutex: C13.i. Client.mutex protects the client's
+// shared state and is taken by every API call and by the reader. A channel
+// operation that can block (a plain send or receive, not a select with
+// default) while it is held stalls the reader goroutine and, through the
+// mutex, every caller: with a full result channel nothing ever drains it.
+// The single send on a command's done channel is exempt: it is made with
+// capacity 1 and written once (C13.d).
+func ruleNoBlockingUnderClientMutex(c *Ctx, rule string, la *lockAnalysis) {
+	n := 0
+	for _, bo := range la.blockOps {
+		if pkgPathOf(bo.fn) != modPath+"/imapclient" {
+			continue
+		}
+		held := false
+		for _, k := range bo.held.classes() {
+			if strings.HasSuffix(k, "Client.mutex") {
+				held = true
+			}
+		}
+		n++
+		key := fmt.Sprintf("%s:%s#%d", fnKey(bo.fn), bo.what, countKey(c, rule, fnKey(bo.fn)+":"+bo.what+"#")+1)
+		if !held {
+			c.ok(rule, key, bo.ins.Pos(), "Client.mutex not held")
+			continue
+		}
+		if snd, ok := bo.ins.(*ssa.Send); ok {
+			if r, ok := loadedField(snd.Chan); ok && r.is("Command", "done") {
+				c.ok(rule, key, bo.ins.Pos(), "the done channel: capacity 1, written once")
+				continue
+			}
+		}
+		c.fail(rule, key, bo.ins.Pos(), bo.what+" while holding Client.mutex: when the channel is full (or empty) the reader goroutine blocks with the mutex held and every call into the client blocks behind it — no command ever completes")
+	}
+	if n == 0 {
+		c.unresolvedRoot("blocking channel operations in imapclient")
+	}
 }
